@@ -192,6 +192,7 @@ inductive Op where
   | lead (m : Nat)                      -- m wins the campaign: new term
   | expire (m : Nat)                    -- m's local lease check turns false
   | resign                              -- the leader record disappears
+  | dropKey                             -- the leader record disappears although its owner still believes in its lease
   | getTS (m : Nat) (count : Nat)
   | update (m : Nat) (now : Nat) (f : Fault)           -- whole UpdateTSO
   | gupdate (m : Nat) (now : Nat)                      -- UpdateTSO parked before its transaction
@@ -211,6 +212,7 @@ def step (s : St) : Op → St × Out
                                else cleared i }, .ok)
   | .expire m => (s.setMem m { s.mems m with lease := false }, .ok)
   | .resign => ({ s with leader := 0, mems := fun i => { s.mems i with lease := false } }, .ok)
+  | .dropKey => ({ s with leader := 0 }, .ok)
   | .getTS m count => getTS s m count
   | .update m now f =>
     let x := s.mems m
